@@ -21,6 +21,8 @@ inductive Rule
   | copyright
   | regionInvalid | regionNested | regionOrphanEnd | regionUnclosed
   | typo (index : Nat)
+  | singleLine                         -- SingleLineValidator: 'block fits in a single line'
+  | multiCondition (index : Nat)       -- MultiConditionChecker: position of the check in its `errors` dict
   deriving DecidableEq, Repr
 
 /-- a report: the rule and the line number it is reported with (0 where the linter reports none) -/
